@@ -17,6 +17,13 @@ Monitors
       stack.zero-thickness   inserting a zero-thickness layer at a non-final position changes neither r nor t
       stack.half-wave        inserting d = lambda / (2 n cos(theta_layer)) leaves |r| and |t| unchanged
       batched.eq-loop        stack arrays of shape (L, 2, *trail) == the per-element loop, normal and oblique incidence
+      forms.*                class E (argument-form equivalence): integer-valued stacks handed over as python ints in tuples /
+                             lists, int8..int64 / uint8 ndarrays, float32, complex, object and mixed containers, wavelength /
+                             angle / ambient index as python int / float / numpy scalars / 0-d arrays, upper-case polarisation,
+                             keyword vs positional, omitted vs explicit defaults after calls with other explicit values, integer
+                             batches of size 1, 2, 3 -- each judged against the Airy reference AND against the same call with the
+                             canonical forms (float64 ndarray, python floats); Fresnel functions with integer indices.  The
+                             accepted forms are the table FORMS_* below (fixed from the tree as it is now).
 """
 import math
 
@@ -37,8 +44,13 @@ RULE = ('a single-precision warm-up first (config.precision = 32 and float32 sta
         'layers {1,2,3,5,8,13,20} x real/complex x normal/oblique x pol x C / Fortran / broadcast (non-contiguous) memory; '
         'histories: ONE stack array object evaluated repeatedly while exactly one of ambient index / angle / wavelength / '
         'polarisation changes, repeated, edited in place, passed inside a batch and again alone, each call judged against the '
-        'Airy reference.  A case is non-trivial unless both media of a single interface are equal; distinct = distinct '
-        'descriptor (all numeric parameters)')
+        'Airy reference; ARGUMENT FORMS (class E): integer-valued stacks of 1..6 layers in every accepted container / dtype kind '
+        '(python ints in tuples and lists, int16/32/64 and uint8 ndarrays, Fortran order, mixed int/float, float32, complex64/128), '
+        'wavelength / angle / ambient index as python int / float / numpy scalars / 0-d arrays, upper-case polarisation, positional / '
+        'keyword / re-ordered keyword calls, aoi and ambient_index omitted vs passed as their documented defaults after calls with other '
+        'explicit values, the same argument objects twice, all-integer calls; x normal / oblique incidence x both polarisations; '
+        'integer batches of size 1, 2, 3; Fresnel / Snell / Brewster functions with integer indices.  A case is non-trivial unless both '
+        'media of a single interface are equal; distinct = distinct descriptor (all numeric parameters)')
 ASSUMPTIONS = ['the last stack entry is the exit medium (documented usage); its thickness only adds a phase to t',
                'power transmittance into a lossless exit medium is Re(n_e cos th_e)/(n0 cos th0) |t|^2 for both polarisations',
                'absorbing media are n + i k with k >= 0 (BYU / e^{-i w t} convention used by the module); absorbing exit media, '
@@ -49,12 +61,16 @@ ASSUMPTIONS = ['the last stack entry is the exit medium (documented usage); its 
                'single precision (config.precision = 32 or float32 / complex64 stack arrays): energy to 5e-3, one-entry stack vs '
                'Fresnel and thin (<= 4 layers, <= 0.5 wavelengths each) stacks vs the Airy reference to 1e-3, batched vs loop to 1e-4 '
                '(measured round-off 2.4e-6, 1.7e-7, 5.1e-7, 0); thick or deep single-precision stacks are only held to the energy law',
-               'double precision: 1e-10 up to 8 layers, 1e-9 for 9..40 layers (measured <= 8.7e-13 against the Airy recursion)']
+               'double precision: 1e-10 up to 8 layers, 1e-9 for 9..40 layers (measured <= 8.7e-13 against the Airy recursion)',
+               'argument forms: the forms in STACK_FORMS / SCALAR_FORMS are the ones the current tree accepts and treats as the same '
+               'input (established by running every combination against the Airy recursion); float16 and object arrays and a '
+               'numpy.float32 angle are not forms of the same double-precision input and are outside the workload']
 REQUIRED = ['snell_aor.law', 'stack.energy-lossless', 'stack.energy-absorbing', 'fresnel.energy', 'stack-vs-fresnel.r',
             'stack-vs-fresnel.t', 'brewster.rp-zero', 'brewster.sign-change', 'brewster.angle', 'stack.airy-reference',
             'stack.zero-thickness', 'stack.half-wave', 'batched.eq-loop',
             'precision32.single-interface', 'precision32.airy-reference', 'precision32.batched-eq-loop', 'precision32.energy',
-            'history.airy-reference', 'history.repeat', 'stack.argument-untouched', 'stack.deep']
+            'history.airy-reference', 'history.repeat', 'stack.argument-untouched', 'stack.deep',
+            'forms.stack', 'forms.scalars', 'forms.call', 'forms.eq-canonical', 'forms.batched', 'forms.fresnel']
 
 CTX = None
 TOL = 1e-10          # observed round-off on the pinned tree: <= 1e-13 (stack vs Airy), <= 4e-15 (energy)
@@ -416,6 +432,7 @@ def _run(ctx):
     stacks(ctx, tf, rng)
     batched(ctx, tf, rng)
     histories(ctx, tf)
+    forms(ctx, tf)
 
     # critical_angle: exercised for reach only, never asserted (argument order ambiguous)
     if ctx.shard == 0:
@@ -637,8 +654,9 @@ def stacks(ctx, tf, rng):
 
 # --- C. batched == loop -------------------------------------------------------------------------------------------------
 def batched(ctx, tf, rng):
-    trails = [((), '0d'), ((1,), '1d-len1'), ((3,), '1d'), ((1, 1), '2d-1x1'), ((2, 3), '2d'), ((3, 1), '2d'), ((1, 4), '2d'),
-              ((2, 1, 3), '3d'), ((2, 2, 2), '3d'), ((2, 1, 2, 2), '4d')]
+    # batch sizes 1, 2, 3 are a standing class: a (2, 2, 2) stack array (two layers, batch of two) is ambiguous with 2x2 matrices
+    trails = [((), '0d'), ((1,), '1d-len1'), ((2,), '1d-len2'), ((3,), '1d'), ((1, 1), '2d-1x1'), ((2, 2), '2d-2x2'), ((2, 3), '2d'), ((3, 1), '2d'),
+              ((1, 4), '2d'), ((2, 1, 3), '3d'), ((2, 2, 2), '3d'), ((2, 1, 2, 2), '4d')]
     if not ctx.quick:
         trails += [((17,), '1d'), ((64,), '1d'), ((5, 4), '2d'), ((16, 9), '2d'), ((3, 2, 4), '3d'), ((4, 3, 5), '3d'), ((2, 3, 1, 2), '4d'),
                    ((2, 1, 2, 1, 3), '5d')]
@@ -779,6 +797,279 @@ def histories(ctx, tf):
                                       'result the second time', desc, first=list(last), second=list(res))
                 last = res
     ctx.note('histories', f'{nh} histories on one stack array object each (layers 1..20), one quantity changed per call')
+
+
+# --- E. argument forms ---------------------------------------------------------------------------------------------------
+# The forms multilayer_stack_rt / the Fresnel functions accept today and treat as the same mathematical input.  Established on
+# /repo@faa8443 (numpy 2.5) by running an integer-valued 4-layer stack in every form x aoi {0, 30} as python int / float /
+# numpy.float64 / int64 / float32 / 0-d array x ambient 1 as int / float / numpy.float64 / int64 x polarisation s/p/S/P x
+# wavelength as int / float / numpy.float64 / int64 / 0-d array against the Airy recursion: every combination agrees to round-off
+# (float16 arrays lose precision, object arrays raise for some contents, a numpy.float32 angle makes the whole chain single
+# precision: not forms of the same double-precision input, excluded).
+STACK_FORMS = {
+    # label: (builder from a list of (n, d) python numbers, form class used in violation keys, single precision?)
+    'list-of-int-tuples': (lambda st: [(int(n), int(d)) for n, d in st], 'integer', False),
+    'tuple-of-int-tuples': (lambda st: tuple((int(n), int(d)) for n, d in st), 'integer', False),
+    'list-of-int-lists': (lambda st: [[int(n), int(d)] for n, d in st], 'integer', False),
+    'int64-ndarray': (lambda st: np.array(st, dtype=np.int64), 'integer', False),
+    'int32-ndarray': (lambda st: np.array(st, dtype=np.int32), 'integer', False),
+    'int16-ndarray': (lambda st: np.array(st, dtype=np.int16), 'integer', False),
+    'uint8-ndarray': (lambda st: np.array(st, dtype=np.uint8), 'integer', False),
+    'int64-fortran-ndarray': (lambda st: np.asfortranarray(np.array(st, dtype=np.int64)), 'integer', False),
+    'mixed-int-float-list': (lambda st: [((int(n) if i % 2 else float(n)), (float(d) if i % 2 else int(d))) for i, (n, d) in enumerate(st)],
+                             'mixed-int-float', False),
+    'float-list': (lambda st: [(float(n), float(d)) for n, d in st], 'float-list', False),
+    'float32-ndarray': (lambda st: np.array(st, dtype=np.float32), 'float32', True),
+    'complex128-ndarray': (lambda st: np.array(st, dtype=complex), 'complex', False),
+    'complex64-ndarray': (lambda st: np.array(st, dtype=np.complex64), 'complex64', True),
+}
+SCALAR_FORMS = {
+    'int': lambda v: int(v), 'float': lambda v: float(v), 'np.float64': lambda v: np.float64(v), 'np.int64': lambda v: np.int64(v),
+    'np.int32': lambda v: np.int32(v), '0d-float': lambda v: np.array(float(v)), '0d-int': lambda v: np.array(int(v)),
+    'np.float32': lambda v: np.float32(v),
+}
+INT_SCALAR_FORMS = ['int', 'np.int64', 'np.int32', '0d-int']          # only for integer-valued quantities
+ANY_SCALAR_FORMS = ['np.float64', '0d-float']
+POL_FORMS = {'s': ['s', 'S'], 'p': ['p', 'P']}
+
+
+def _form_trip(tf, stack, wl, pol, aoi, n0, call):
+    if call == 'positional':
+        return tf.multilayer_stack_rt(stack, wl, pol, aoi, n0)
+    if call == 'keywords':
+        return tf.multilayer_stack_rt(stack=stack, wavelength=wl, polarization=pol, aoi=aoi, ambient_index=n0)
+    if call == 'keywords-reordered':
+        return tf.multilayer_stack_rt(ambient_index=n0, aoi=aoi, polarization=pol, wavelength=wl, stack=stack)
+    if call == 'omit-aoi':              # only used with aoi == 0
+        return tf.multilayer_stack_rt(stack, wl, pol, ambient_index=n0)
+    if call == 'omit-ambient':          # only used with ambient == 1
+        return tf.multilayer_stack_rt(stack, wl, pol, aoi=aoi)
+    if call == 'omit-both':
+        return tf.multilayer_stack_rt(stack, wl, pol)
+    return tf.multilayer_stack_rt(stack, wl, pol, aoi=aoi, ambient_index=n0)
+
+
+def forms(ctx, tf):
+    """Class E.  One argument at a time leaves its canonical form (so a failure names the argument), plus all-integer calls
+    (every argument a python / numpy integer) with the failing argument found by re-running with one argument non-canonical."""
+    rng = ctx.rng('c17-forms')
+    stack_forms = list(STACK_FORMS)
+    n_cases = ctx.pick(3000, 60000)
+    ARGS = ['stack', 'stack', 'stack', 'wavelength', 'aoi', 'ambient_index', 'polarization', 'call', 'all-integer']
+    last_explicit = None
+    for it in range(n_cases):
+        if not ctx.mine(it):
+            continue
+        g = np.random.default_rng(ctx.subseed(rng))
+        which = ARGS[it % len(ARGS)]
+        q = it // len(ARGS)               # running number of the case within its argument kind: enumerates the forms of that argument
+        # everything that is not the enumerated form is drawn at random (independent of the enumeration, so that every form meets
+        # normal and oblique incidence, both polarisations, integral and non-integral ambient indices, all layer counts)
+        L = int(g.integers(1, 7))
+        # integer-valued stack: indices 1..4, thicknesses 0..3; the wavelength keeps the phase thickness non-trivial (d/wl <= 0.75)
+        st = [(int(g.integers(1, 5)), int(g.integers(0, 4))) for _ in range(L)]
+        int_wl = which in ('wavelength', 'all-integer') and g.random() < 0.6
+        wl = float(int(g.integers(4, 10))) if int_wl else float(g.uniform(4.0, 9.7))
+        n0 = float(int(g.integers(1, 3))) if (g.random() < 0.4 or which == 'all-integer') else (1.0 if g.random() < 0.5 else float(g.uniform(1.0, 1.6)))
+        nmin = min(n for n, _ in st)
+        amax = max_aoi(n0, nmin, 85.0)
+        aoi_cls = 'oblique' if (g.random() < 0.67 and amax > 2) else 'normal'
+        aoi = 0.0 if aoi_cls == 'normal' else float(int(g.integers(1, int(amax) + 1)))        # whole degrees: exact in every scalar form
+        pol = 'sp'[int(g.integers(2))]
+        canon = dict(stack=np.array(st, dtype=float), wl=wl, pol=pol, aoi=aoi, n0=n0, call='default')
+        arg = dict(canon)
+        label = {}
+        low = False
+        if which in ('stack', 'all-integer'):
+            fl = stack_forms[(3 * q + ARGS.index(which) + it % 3) % len(stack_forms)] if which == 'stack' else stack_forms[q % 8]
+            build, fcls, low = STACK_FORMS[fl]
+            arg['stack'] = build(st)
+            label['stack'] = (fl, fcls)
+        if which in ('wavelength', 'all-integer'):
+            fl = (INT_SCALAR_FORMS if int_wl else ANY_SCALAR_FORMS)[q % (4 if int_wl else 2)]
+            arg['wl'] = SCALAR_FORMS[fl](wl)
+            label['wavelength'] = (fl, 'integer' if int_wl else fl)
+        if which in ('aoi', 'all-integer'):
+            fl = (INT_SCALAR_FORMS + ANY_SCALAR_FORMS)[q % 6] if which == 'aoi' else INT_SCALAR_FORMS[(q // 2) % 4]
+            arg['aoi'] = SCALAR_FORMS[fl](aoi)
+            label['aoi'] = (fl, 'integer' if fl in INT_SCALAR_FORMS else fl)
+        if which in ('ambient_index', 'all-integer'):
+            if n0 == int(n0):
+                fl = (INT_SCALAR_FORMS[:3] + ['np.float64'])[q % 4]
+            else:
+                fl = 'np.float64'
+            arg['n0'] = SCALAR_FORMS[fl](n0)
+            label['ambient_index'] = (fl, 'integer' if fl in INT_SCALAR_FORMS else fl)
+        if which == 'polarization':
+            arg['pol'] = POL_FORMS[pol][1]
+            label['polarization'] = ('upper-case', 'upper-case')
+        if which == 'call':
+            calls = ['positional', 'keywords', 'keywords-reordered']
+            if aoi == 0:
+                calls.append('omit-aoi')
+            if n0 == 1.0:
+                calls.append('omit-ambient')
+            if aoi == 0 and n0 == 1.0:
+                calls.append('omit-both')
+            arg['call'] = calls[q % len(calls)]
+            label['call'] = (arg['call'], arg['call'] + ('/after-explicit-values' if arg['call'].startswith('omit') and last_explicit else ''))
+        desc = {'wl': 'forms', 'varied': which, 'forms': {k_: v_[0] for k_, v_ in label.items()}, 'stack': [list(e) for e in st], 'wavelength': wl,
+                'aoi': aoi, 'n0': n0, 'pol': pol, 'after': last_explicit, 'class': f'forms:{which}:{next(iter(label.values()))[0]}:{aoi_cls}'}
+        ctx.case(desc)
+        ac = aoi_class(aoi)
+        tol = LOW_AIRY if low else TOL
+        rr, tt = R.stack_rt([(float(n), float(d)) for n, d in st], wl, pol, math.radians(aoi), n0)
+
+        def bad(res, tol_=tol):
+            if res is None:
+                return 'raises'
+            r, t = res
+            if np.shape(r) != () or np.shape(t) != ():
+                return 'shape'
+            r, t = complex(r), complex(t)
+            er = min(abs(r - rr), abs(r + rr)) if pol == 'p' else abs(r - rr)
+            if not er <= tol_:
+                return 'r'
+            if not abs(abs(t) - abs(tt)) <= tol_ * max(1.0, abs(tt)):
+                return 't'
+            return None
+
+        def call(a):
+            return _form_trip(tf, a['stack'], a['wl'], a['pol'], a['aoi'], a['n0'], a['call'])
+
+        exc = None
+        res = None
+        try:
+            res = call(arg)
+            if it % 2:
+                res = call(arg)       # class A: the same argument objects (0-d arrays, ndarrays, lists) once more; the later call is judged
+        except Exception as e:  # an accepted form raising is a violation of the form equivalence
+            exc = e
+        ctx.observe('forms.stack' if which in ('stack', 'all-integer') else 'forms.scalars' if which != 'call' else 'forms.call')
+        verdict = ('raises:' + type(exc).__name__) if exc is not None else bad(res)
+        if verdict is None:
+            # also against the canonical call through the library (same formulation: agreement to round-off)
+            with quiet():
+                cres = call(canon)
+            ctx.observe('forms.eq-canonical')
+            cr, ct = complex(cres[0]), complex(cres[1])
+            fr, ft = complex(res[0]), complex(res[1])
+            ftol = LOW_AIRY if low else 1e-12
+            if not (abs(fr - cr) <= ftol and abs(ft - ct) <= ftol * max(1.0, abs(ct))):
+                verdict = 'ne-canonical-form'
+        if verdict is not None:
+            # which argument is responsible?  re-run with exactly one argument in its non-canonical form
+            culprits = []
+            if len(label) > 1:
+                for k_ in label:
+                    one = dict(canon)
+                    src = {'stack': 'stack', 'wavelength': 'wl', 'aoi': 'aoi', 'ambient_index': 'n0', 'polarization': 'pol', 'call': 'call'}[k_]
+                    one[src] = arg[src]
+                    try:
+                        with quiet():
+                            b_ = bad(call(one))
+                    except Exception:  # noqa
+                        b_ = 'raises'
+                    if b_ is not None:
+                        culprits.append(k_)
+            names_ = culprits or list(label)
+            fpart = '+'.join(f'{k_}={label[k_][1]}' for k_ in names_)
+            plain = f'C17/stack/{pol}/ne-airy-reference/r/{ac}'
+            if not low and any(k_.startswith(f'C17/stack/{pol}/ne-airy-reference/') and '/form:' not in k_ and '/history' not in k_ for k_ in ctx.violations) \
+                    and bad(_try(lambda: call(canon))) is not None:
+                key = plain                   # the canonical call fails too: not a form effect
+            else:
+                key = f'C17/stack/form:{fpart}'        # the form is the mechanism label: one key whatever the polarisation / angle
+            ctx.violation(key, f'multilayer_stack_rt with {fpart} differs from the Airy recursion / the canonical call ({verdict})', desc,
+                          got=None if res is None else [complex(np.ravel(res[0])[0]), complex(np.ravel(res[1])[0])], ref=[rr, tt],
+                          exception=repr(exc)[:200] if exc is not None else None)
+        if which != 'call' or not arg['call'].startswith('omit'):
+            last_explicit = {'aoi': aoi, 'ambient_index': n0} if (aoi != 0 or n0 != 1.0) else last_explicit
+
+    # integer batches of size 1, 2, 3 at oblique incidence == loop over float stacks == Airy
+    kb = -1
+    for B in (1, 2, 3):
+        for L in (1, 2, 3, 5):
+            for dt in ('int64', 'int32', 'uint8'):
+                for pol in 'sp':
+                    kb += 1
+                    if not ctx.mine(kb):
+                        continue
+                    g = np.random.default_rng([ctx.seed, 1717, kb])
+                    n = g.integers(1, 5, (L, B))
+                    d = g.integers(0, 4, (L, B))
+                    wl = float(g.uniform(4.0, 9.7))
+                    n0 = 1.0
+                    aoi = float(int(g.integers(1, 80))) if kb % 4 else 0.0
+                    stack = np.stack([n, d], axis=1).astype(dt)
+                    desc = {'wl': 'forms-batched', 'batch': B, 'layers': L, 'dtype': dt, 'pol': pol, 'aoi': aoi, 'wavelength': wl,
+                            'stack': stack.tolist(), 'class': f'forms:batched:integer:B{B}:{aoi_class(aoi)}'}
+                    ctx.case(desc)
+                    key = 'C17/batched/form:stack=integer'
+                    with ctx.guard(key, desc):
+                        r, t = tf.multilayer_stack_rt(stack, wl, pol, aoi=aoi, ambient_index=n0)
+                        r, t = np.asarray(r), np.asarray(t)
+                        ctx.observe('forms.batched')
+                        ok = r.shape == (B,) and t.shape == (B,)
+                        for b_ in range(B if ok else 0):
+                            rr, tt = R.stack_rt([(float(n[l, b_]), float(d[l, b_])) for l in range(L)], wl, pol, math.radians(aoi), n0)
+                            er = min(abs(r[b_] - rr), abs(r[b_] + rr)) if pol == 'p' else abs(r[b_] - rr)
+                            ok = ok and er <= TOL and abs(abs(t[b_]) - abs(tt)) <= TOL * max(1.0, abs(tt))
+                        if not ok:
+                            ctx.violation(key, f'integer-typed batched stack (batch of {B}) differs from the Airy recursion', desc, got_shape=list(r.shape))
+
+    # Fresnel functions / snell / brewster with integer indices (python ints, numpy ints) vs the textbook formulas
+    kf = -1
+    for n0i, n1i in ((1, 2), (1, 3), (2, 3), (1, 4), (2, 1), (3, 2), (1, 1)):
+        for aoi in (0, 20, 35):
+            for nf in ('int', 'np.int64', 'np.int32', '0d-int'):
+                for tf_ in ('float', 'np.float64', '0d-float', 'np.float32'):
+                    kf += 1
+                    if not ctx.mine(kf):
+                        continue
+                    crit = R.critical(float(n0i), float(n1i))
+                    if crit is not None and math.radians(aoi) > crit - math.radians(1.0):
+                        ctx.skip('forms: angle beyond the critical angle margin')
+                        continue
+                    a0, a1 = SCALAR_FORMS[nf](n0i), SCALAR_FORMS[nf](n1i)
+                    th0 = math.radians(aoi)
+                    c0, c1 = math.cos(th0), math.sqrt(max(0.0, 1 - (n0i * math.sin(th0) / n1i) ** 2))
+                    th1 = math.acos(c1)
+                    desc = {'wl': 'forms-fresnel', 'n0': n0i, 'n1': n1i, 'aoi': aoi, 'n_form': nf, 'theta_form': tf_,
+                            'class': f'forms:fresnel:n={nf}:theta={tf_}'}
+                    ctx.case(desc, nontrivial=n0i != n1i)
+                    lowf = tf_ == 'np.float32'
+                    ftol = 1e-5 if lowf else 1e-12
+                    with ctx.guard('C17/single-interface/form:n=integer', desc):
+                        ctx.observe('forms.fresnel')
+                        got_th1 = float(np.real(tf.snell_aor(a0, a1, SCALAR_FORMS[tf_](aoi) if tf_ != 'np.float32' else np.float32(aoi))))
+                        bad_ = []
+                        if not abs(got_th1 - th1) <= (1e-5 if lowf else 1e-12):
+                            bad_.append('snell_aor')
+                        t0, t1 = SCALAR_FORMS[tf_](th0), SCALAR_FORMS[tf_](th1)
+                        for pol in 'sp':
+                            rr, tt = R.interface(pol, float(n0i), c0, float(n1i), c1)
+                            fr = float(getattr(tf, 'fresnel_r' + pol)(a0, a1, t0, t1))
+                            ft = float(getattr(tf, 'fresnel_t' + pol)(a0, a1, t0, t1))
+                            if not abs(fr - rr) <= ftol:
+                                bad_.append('fresnel_r' + pol)
+                            if not abs(ft - tt) <= ftol:
+                                bad_.append('fresnel_t' + pol)
+                        if n0i != n1i:
+                            if not abs(float(tf.brewsters_angle(a0, a1, deg=False)) - R.brewster(float(n0i), float(n1i))) <= 1e-12:
+                                bad_.append('brewsters_angle')
+                        if bad_:
+                            ctx.violation('C17/single-interface/form:n=integer/' + '+'.join(sorted(set(bad_))),
+                                          'Fresnel / Snell / Brewster functions with integer-typed indices differ from the textbook formulas', desc)
+    ctx.note('forms', {'stack_forms': stack_forms, 'scalar_forms': list(SCALAR_FORMS), 'cases': n_cases})
+
+
+def _try(f):
+    try:
+        with quiet():
+            return f()
+    except Exception:  # noqa
+        return None
 
 
 def replay(ctx, rec):
